@@ -82,7 +82,9 @@ CLAIMS = {
          "For the traversal's own events (C08's pairing clause): walk_joins_balanced — every ring number is written an even number of times and no closing digit meets a defect; walk_join_pairs_are_bonds — the two atoms a ring number is written on are bonded in the graph (Lemmas/JoinPairL.lean). "
          "WITHOUT BUILDER STATE IN THE STATEMENT (Lemmas/JoinReasonL.lean: HistDefect, equivalent to JoinDefect under the prefix invariant): build_join_error_is_a_written_closure — the pair (a, c) and the reason are read off the written events alone "
          "(Spec.replay gives the head atom a; Spec.scan the open digit the closing digit pairs with, written at head c; the reason is a = c, an earlier event already contributing a bond between them (Spec.contribH), or irreconcilable written kinds); "
-         "build_succeeds_iff_written — build succeeds IFF no ring digit of the history meets such a written-history defect and every number is written an even number of times; walk_joins_balanced_written / walk_join_pairs_are_bonds_written — the same for the traversal's events. "
+         "build_succeeds_iff_written — build succeeds IFF no ring digit of the history meets such a written-history defect and every number is written an even number of times; walk_joins_balanced_written / walk_join_pairs_are_bonds_written — the same for the traversal's events; the Join error is the FIRST written-history defect; "
+         "unmatched_iff_odd (Lemmas/ScanParityL.lean) — for every history a number is open at the end of the pairing scan iff it has been written an odd number of times, so build_succeeds_iff_nothing_open: build succeeds IFF no digit meets a defect and the scan ends with nothing open; "
+         "walk_closing_digit_joins_bonded_atoms / walk_joins_paired_on_events — C08's pairing clause on the event stream of walk itself, with the open digit's being a join concluded rather than assumed. "
          "Still decided on every run as well by an oracle that recomputes unmatched digits and problematic closures from the history without the builder.",
          "Lean 4 proof (builder invariant: resolved bonds form a well-formed simple graph, by induction over conformant histories) + differential correspondence of builder results", "4.10"),
  'C11': ("Theorems in Purr/Props/C11.lean, for EVERY adjacency list: validate g = none iff WellFormed g (independent definition in Purr/Spec/WellFormed.lean: targets exist, no self bond, no pair bonded twice, "
@@ -100,7 +102,9 @@ CLAIMS = {
          "THE VISIT ORDER IS THE TEXTBOOK DEPTH-FIRST PREORDER (visit_order_is_depth_first; Spec/Dfs.lean, Lemmas/DfsL.lean): the order under which all these theorems renumber the atoms equals Spec.dfsOrder — defined from the adjacency list and the atoms seen so far only "
          "(start atoms tried as 0, 1, ...; a bond list gone through in list order; a bond to a new atom visits it and everything under it before the next bond is looked at), i.e. 'components start at the lowest-numbered unvisited atom and children are visited in list order' said outright — "
          "and it is the order in which the atom events reach the follower. "
-         "THE FIRST SENTENCE ABOUT THE TEXT ITSELF (written_order): what the written text denotes (Spec.denote of C02: bond lists read off the text in written order) is at every atom the original list with only the arrival bond moved to the front — no builder in the statement.",
+         "THE FIRST SENTENCE ABOUT THE TEXT ITSELF (written_order): what the written text denotes (Spec.denote of C02: bond lists read off the text in written order) is at every atom the original list with only the arrival bond moved to the front — no builder in the statement. "
+         "arrival_bond_is_the_attachment (Lemmas/DenoteFirstL.lean): the bond written first IS the arrival bond — an atom the text attaches to head atom hd has its one bond to hd first, then the rest of its list in order; "
+         "substituent_order_walk_depth_first: the same about walk itself with the order identified as Spec.dfsOrder; visit_order_unique: any fuel on which the textbook search finishes gives that order.",
          "Lean 4 proof of the scheduling-order lemmas of traversal and builder + exact bond-list order oracle on the real round trip", "4.12"),
  'C13': ("Theorems in Purr/Props/C13.lean about the ring-number pool, for every sequence of hits (every reachable interleaving of openings and closings): the pool invariant "
          "(open and returned numbers partition 1..counter-1, no duplicates, one entry per unordered pair) holds in every reachable state; an opening hit returns the least number >= 1 not currently open; "
@@ -130,8 +134,9 @@ CLAIMS = {
          "OWN END (bond_cursor_is_own_end, Lemmas/TraceEndsL.lean): the entry (x,y) -> c points at a bond token of kind b that is followed either by the trace's own range of the later of the atoms x, y, which the reader attached with exactly kind b (chain / branch bond, both directions), "
          "or by the trace's own range of the k-th ring-closure token, which was written while x was the head atom and whose join carried exactly kind b (ring closure: each direction its own digit). "
          "trace_matches_built_graph: for every accepted string that builds, the trace has as many atoms as the built graph and an entry for (x,y) iff atom x has a bond to atom y (builder/trace lock-step over the same events, Lemmas/TraceBondL.lean). "
-         "THE LAST CLAUSE (build errors can be shown at the right place): rnum_error_points_at_its_token — if building what was read fails with Rnum(i), entry i of the ring table exists, is a non-empty range inside the string and its token reads as a ring number the string carries an odd number of times; "
-         "join_error_points_at_its_atoms — if it fails with Join(a, c), both atoms have an entry in the atom table, each the exact range of an atom token. "
+         "THE LAST CLAUSE (build errors can be shown at the right place): rnum_error_points_at_its_token — if building what was read fails with Rnum(i), entry i of the ring table exists, is a non-empty range inside the string and its token reads as the number r of the i-th ring digit reported, no later digit carries r and the string carries r an odd number of times (the last, unanswered occurrence); "
+         "trace_rnums_in_string_order — ring-table entries are in string order and do not overlap, so entry k is THE k-th ring token; "
+         "join_error_points_at_its_atoms — if it fails with Join(a, c), both atoms have an entry in the atom table, each the exact range of the token of the a-th / c-th atom the reader reported. "
          "Additionally the complete trace dump of the real Trace (all atom ranges, every bond key in both directions, ring digits) is compared with the model on every string, and an oracle recomputes spans and bond cursors from an independent tokeniser.",
          "Lean 4 proof that recorded ranges and bond cursors are exactly token positions (located-event invariant over the reader) and that the trace's keys are the built graph's bonds (lock-step invariant) + full trace-dump correspondence", "4.15"),
  'C16': ("Theorem debracket_sound (Purr/Props/C16.lean): for every atom kind and every bond-order sum (an unbounded Nat), whenever debracket returns, the result has the same "
